@@ -41,6 +41,28 @@ def cases(tier, rng, schema, feats):
                 tree = cbor.M(rng.shuffle(tree.pairs))
             out.append(f"C01.{n}\tdecty\t{t}\t{cbor.enc(tree).hex()}")
             n += 1
+    # members the platform really sends although the tables do not list them (transports in descriptors, credProps / prf / credBlob in
+    # extensions, new options), with list and map values of growing size: they are skipped whatever their size
+    hints = ["usb", "nfc", "ble", "smart-card", "hybrid", "internal", "cable", "x1", "x2", "x3", "x4", "x5"]
+    def desc(cnt):
+        return cbor.M([("id", b"\x5a" * 16), ("type", "public-key"), ("transports", hints[:cnt])])
+    for cnt in (0, 1, 2, 5, 6, 7, 8, 12):
+        mcreq = cbor.M([(1, b"\x11" * 32), (2, cbor.M([("id", "example.com")])), (3, cbor.M([("id", b"\x01")])),
+                        (4, [cbor.M([("alg", -7), ("type", "public-key")])]), (5, [desc(cnt), desc(1)])])
+        out.append(f"C01.{n}\tdec2\t01{cbor.enc(mcreq).hex()}")
+        n += 1
+        gareq = cbor.M([(1, "example.com"), (2, b"\x22" * 32), (3, [desc(cnt)])])
+        out.append(f"C01.{n}\tdec2\t02{cbor.enc(gareq).hex()}")
+        n += 1
+        for cmdb in (0x0A, 0x41):
+            cmreq = cbor.M([(1, 6), (2, cbor.M([(2, desc(cnt))]))])
+            out.append(f"C01.{n}\tdec2\t{cmdb:02x}{cbor.enc(cmreq).hex()}")
+            n += 1
+        ext = cbor.M([("credProps", True), ("prf", cbor.M([("evalByCredential", cbor.M([(str(j), cbor.M([("first", b"\x01" * 32)])) for j in range(cnt)]))])), ("hmac-secret", True)])
+        mc2 = cbor.M([(1, b"\x11" * 32), (2, cbor.M([("id", "example.com")])), (3, cbor.M([("id", b"\x01")])),
+                      (4, [cbor.M([("alg", -7), ("type", "public-key")])]), (6, ext), (7, cbor.M([("rk", True), ("largeBlob", ["a"] * cnt)]))])
+        out.append(f"C01.{n}\tdec2\t01{cbor.enc(mc2).hex()}")
+        n += 1
     # every COSE algorithm identifier of the registered neighbourhood offered in pubKeyCredParams, alone and with
     # the two supported ones: only -7 and -8 may come out, in the order sent
     from . import c14 as _c14
